@@ -1,7 +1,7 @@
 (* C14 User-supplied package types: call protocol and post-hook validation.  Every theorem quantifies over ALL shapes
    (any from_str, any finish hook): these are statements about all programs a user can plug in. *)
 Load "coq/props/Hdr".
-From PM Require Import C14 Assemble.
+From PM Require Import C14 Assemble Exec More.
 Lemma src_rt : rt_ok cfg. Proof. prove_rt. Qed.
 Lemma src_cfg_ok : cfg_ok cfg. Proof. sc. Qed.
 Theorem C14_log_erases : forall (T E : Type) (sh : shape T E) s, snd (parse_w cfg sh s) = parse cfg sh s.
@@ -50,3 +50,7 @@ Theorem C14_post_hook_invariant : forall (T E : Type) (sh : shape T E) t p t' p'
   build cfg sh t p = Ok (t', p') -> Inv cfg p'.
 Proof. intros T E sh t p t' p'. apply (C04_build cfg src_rt); sc. Qed.
 Print Assumptions C14_post_hook_invariant.
+(* every member of the family of user-written shapes used by the correspondence check satisfies the hypothesis of the invariant theorem *)
+Theorem C14_family_members_are_sane : forall c r hks, hook_sane cfg (fam_shape cfg c r hks).
+Proof. apply fam_sane; sc. Qed.
+Print Assumptions C14_family_members_are_sane.
